@@ -134,8 +134,32 @@ type runCtx struct {
 	foreign                                     []foreignWrite // appended under the kv engine's lock
 	failures                                    []string
 	afterImport                                 func() // reference run only
+	noStamp                                     bool
 	lastPackedOn                                thor.Bytes32
 	ownBlocks, staleBlocks, poolUsed, packedTxs int
+}
+
+// tick draws a stamp from THE global counter. With -nostamp (race-detector runs) nothing is shared between the
+// goroutines but the node under test: the stamp counter and the phase word would add happens-before edges between
+// otherwise unsynchronised accesses and hide races from the detector.
+func (rc *runCtx) tick() uint64 {
+	if rc.noStamp {
+		return 0
+	}
+	return rc.ctr.Add(1)
+}
+
+func (rc *runCtx) setPhase(p uint32) {
+	if !rc.noStamp {
+		rc.phase.Store(p)
+	}
+}
+
+func (rc *runCtx) getPhase() uint32 {
+	if rc.noStamp {
+		return phBegin
+	}
+	return rc.phase.Load()
 }
 
 func goid() uint64 {
@@ -157,7 +181,7 @@ var (
 
 // onWrite runs under the kv engine's lock, right after the batch became visible.
 func (rc *runCtx) onWrite(idx int, b *kvrec.Batch) {
-	t := rc.ctr.Add(1)
+	t := rc.tick()
 	cls := kvrec.WriteClass(b)
 	if g := goid(); g != rc.impG {
 		buf := make([]byte, 4096)
@@ -168,25 +192,25 @@ func (rc *runCtx) onWrite(idx int, b *kvrec.Batch) {
 	ev := impEv{t: t, e: "W", b: rc.cur, cls: cls}
 	switch cls {
 	case "state":
-		rc.phase.Store(phState)
+		rc.setPhase(phState)
 	case "idx":
-		rc.phase.Store(phIdx)
+		rc.setPhase(phIdx)
 	case "blk":
 		for _, o := range b.Ops {
 			if bytes.Equal(o.Key, bestKey) {
 				ev.best = true
 			}
 		}
-		rc.phase.Store(phBlk)
+		rc.setPhase(phBlk)
 	case "q":
-		rc.phase.Store(phQ)
+		rc.setPhase(phQ)
 	case "fin":
 		for _, o := range b.Ops {
 			if bytes.Equal(o.Key, finKey) {
 				ev.f, ev.hasF = thor.BytesToBytes32(o.Val), true
 			}
 		}
-		rc.phase.Store(phFin)
+		rc.setPhase(phFin)
 	}
 	rc.imp = append(rc.imp, ev)
 }
@@ -196,12 +220,12 @@ func (rc *runCtx) deliver(blk *block.Block) {
 	n := rc.node
 	id := blk.Header().ID()
 	rc.cur = id
-	rc.phase.Store(phBegin)
-	rc.imp = append(rc.imp, impEv{t: rc.ctr.Add(1), e: "Begin", b: id})
+	rc.setPhase(phBegin)
+	rc.imp = append(rc.imp, impEv{t: rc.tick(), e: "Begin", b: id})
 	bi := len(rc.imp) - 1
 	class, err := n.Deliver(blk)
-	rc.phase.Store(phIdle)
-	t := rc.ctr.Add(1)
+	rc.setPhase(phIdle)
+	t := rc.tick()
 	if rc.afterImport != nil {
 		rc.afterImport()
 	}
@@ -241,13 +265,13 @@ func (rc *runCtx) pack(flow *packer.Flow, what string) bool {
 		rc.poolUsed += hi - k
 	}
 	rc.cur = thor.Bytes32{}
-	rc.phase.Store(phBegin)
-	rc.imp = append(rc.imp, impEv{t: rc.ctr.Add(1), e: "Begin"})
+	rc.setPhase(phBegin)
+	rc.imp = append(rc.imp, impEv{t: rc.tick(), e: "Begin"})
 	bi := len(rc.imp) - 1
 	before := len(n.Comm.Out)
 	err := n.Node.VerifDoPack(flow)
-	rc.phase.Store(phIdle)
-	t := rc.ctr.Add(1)
+	rc.setPhase(phIdle)
+	t := rc.tick()
 	n.Pool.Txs = nil
 	if err == nil && len(n.Comm.Out) != before+1 {
 		err = fmt.Errorf("doPack did not broadcast a block")
